@@ -131,6 +131,8 @@ class FnTables:
         self.sym_ub = {}       # symbol -> linear form it does not exceed (e.g. earliest <= num_sources - 1)
         self.facts_lb = {}     # symbol -> constant lower bound established by an early return guard
         self.tables = {}       # name -> [(capacity form, guard (f, op) or None)]
+        self.unguarded_index = {}
+        self.cond_defs = {}    # single-definition locals initialised with c ? a : b
         self._collect()
 
     def _collect(self):
@@ -201,6 +203,11 @@ class FnTables:
                 # an index below the count exists only when the count is at least 1 (established by an early-return guard)
                 if cf is not None and (min_value(cf, {}, self.facts_lb) or 0) >= 1:
                     self.sym_ub[name] = L.add(cf, {1: -1})
+                elif cf is not None:
+                    self.unguarded_index[name] = cf      # index 0 comes back even for an empty table
+                continue
+            if init["k"] == "ConditionalOperator":
+                self.cond_defs[name] = init
                 continue
             f = L.lin(init, self.env)
             if f is not None and init["k"] not in ("CallExpr",) and all(isinstance(s, int) or not any(ch in str(s) for ch in "([") or True for s in f):
@@ -273,9 +280,28 @@ class FnTables:
         if e["k"] == "BinaryOperator" and e["op"] in ("+",):
             a, b = self.max_of(e["c"][0], bounds), self.max_of(e["c"][1], bounds)
             return None if a is None or b is None else L.add(a, b)
+        if e["k"] == "ConditionalOperator":
+            a, b = self.max_of(e["c"][1], bounds), self.max_of(e["c"][2], bounds)
+            if a is None or b is None:
+                return None
+            if a == b:
+                return a
+            if not (set(a) - {1}) and not (set(b) - {1}):
+                return {1: max(a.get(1, 0), b.get(1, 0))}
+            return None
+        if e["k"] == "DeclRefExpr" and e["name"] in self.cond_defs:
+            return self.max_of(self.cond_defs[e["name"]], bounds)
         f = L.lin(e, self.env)
         if f is None:
             return None
+        free = {p["name"] for p in self.F.params}
+        for sy in f:
+            if sy == 1 or sy in bounds or sy in self.sym_ub or sy in self.unguarded_index:
+                continue
+            if sy in self.cond_defs and f[sy] > 0:
+                continue
+            if sy not in free or sy in self.written:
+                return None            # a quantity this analysis knows nothing about: no verdict on this subscript
         out = {1: f.get(1, 0)}
         for s, k in f.items():
             if s == 1:
@@ -288,6 +314,13 @@ class FnTables:
                 if k < 0:
                     continue
                 out = L.add(out, L.scale(self.sym_ub[s], k))
+            elif s in self.cond_defs:
+                m = self.max_of(self.cond_defs[s], bounds)
+                if m is None:
+                    return None
+                out = L.add(out, L.scale(m, k))
+            elif s in self.unguarded_index:
+                out = L.add(out, L.scale(self.unguarded_index[s], k))     # count, i.e. one past the end: fails the comparison
             else:
                 out = L.add(out, {s: k})
         return out
@@ -307,7 +340,10 @@ def check_function(prog, F, index_helpers, report):
                 report("subscript", node, b["name"], None, {"why": "a loop variable is modified inside the loop body"})
                 continue
             mx = T.max_of(node["c"][1], bounds)
-            ok = mx is not None
+            if mx is None:
+                report("undetermined", node, b["name"], True, {"index": expr_str(node["c"][1])})
+                continue
+            ok = True
             det = {"index": expr_str(node["c"][1]), "largest_index": L.show(mx) if mx is not None else None, "capacity": []}
             if ok:
                 for cap, guard in T.tables[b["name"]]:
